@@ -177,7 +177,7 @@ theorem invalid_request_no_side_effect (sr : Msg → Bool) (env : Env) (c : Conn
   rw [f7] at hrecv
   refine ⟨?_, ?_, ?_, ?_, ?_, ?_⟩
   · rw [hrecv]
-    simp only [writes_append, writes_pre, writes_post, writes_raisedOf, List.append_nil, writes]
+    simp only [writes_append, writes_pre, writes_post, writes_raisedOf, List.append_nil]
   · rw [hrecv]; exact f2
   · rw [hrecv]; exact f6
   · rw [hrecv]; exact f5
